@@ -254,6 +254,73 @@ func (fc *FnCtx) valueEq(a, b Value, t types.Type) Term {
 	return And(cs...)
 }
 
+// readOnlyLoad: a load, directly or through a chain of field addresses, from a read-only local
+// whose single store dominates the load, is the corresponding part of the stored value.
+func (fc *FnCtx) readOnlyLoad(x *ssa.UnOp) (Value, bool) {
+	var path []int
+	v := x.X
+	for {
+		fa, ok := v.(*ssa.FieldAddr)
+		if !ok {
+			break
+		}
+		path = append([]int{fa.Field}, path...)
+		v = fa.X
+	}
+	a, ok := v.(*ssa.Alloc)
+	if !ok || !fc.readOnlyLocal(a) {
+		return Value{}, false
+	}
+	var st *ssa.Store
+	for _, r := range *a.Referrers() {
+		if s, ok := r.(*ssa.Store); ok && s.Addr == ssa.Value(a) {
+			st = s
+		}
+	}
+	if st == nil {
+		return Value{}, false
+	}
+	lb := x.Block()
+	if st.Block() == lb {
+		// same block: the store must come first
+		before := false
+		for _, ins := range lb.Instrs {
+			if ins == ssa.Instruction(st) {
+				before = true
+			}
+			if ins == ssa.Instruction(x) {
+				break
+			}
+		}
+		if !before {
+			return Value{}, false
+		}
+	} else if !st.Block().Dominates(lb) {
+		return Value{}, false
+	}
+	val, known := fc.vals[st.Val]
+	if !known {
+		if c, isConst := st.Val.(*ssa.Const); isConst {
+			val = fc.constValue(c)
+		} else {
+			return Value{}, false
+		}
+	}
+	t := a.Type().Underlying().(*types.Pointer).Elem()
+	for _, f := range path {
+		stt, ok := t.Underlying().(*types.Struct)
+		if !ok || (val.K != KTuple && val.K != KStruct) || f >= len(val.E) {
+			return Value{}, false
+		}
+		val = val.E[f]
+		t = stt.Field(f).Type()
+	}
+	if val.K == KOpaque {
+		return Value{}, false
+	}
+	return val, true
+}
+
 func (fc *FnCtx) unOpInstr(x *ssa.UnOp) {
 	a := fc.val(x.X)
 	switch x.Op {
@@ -261,6 +328,11 @@ func (fc *FnCtx) unOpInstr(x *ssa.UnOp) {
 		fc.nilCheck(a, x.Pos(), "load")
 		if a.K != KPtr {
 			fc.setVal(x, fc.freshValue("ld", shapeOf(x.Type(), fc.mode)))
+			return
+		}
+		if rv, ok := fc.readOnlyLoad(x); ok {
+			// a local that is written once and never again: the load is the stored value itself
+			fc.setVal(x, rv)
 			return
 		}
 		v := fc.load(fc.cur, x.Type(), a.Obj(), a.Off())
